@@ -6,10 +6,12 @@ package main
 
 import (
 	"encoding/json"
+	ppb "github.com/google/fhir/go/proto/google/fhir/proto/r4/core/resources/patient_go_proto"
 	"math/rand"
 	"os"
 	"runtime"
 	"strings"
+	"time"
 
 	dtpb "github.com/google/fhir/go/proto/google/fhir/proto/r4/core/datatypes_go_proto"
 	"github.com/verily-src/fhirpath-go/fhirpath"
@@ -75,7 +77,77 @@ func patchValue(kind string) fhir.Base {
 		return &dtpb.Reference{Reference: &dtpb.Reference_Uri{Uri: &dtpb.String{Value: "Practitioner/x"}}}
 	case "Extension":
 		return &dtpb.Extension{Url: &dtpb.Uri{Value: "http://example.org/ext/n"}}
+	case "Date":
+		return &dtpb.Date{ValueUs: 1577836800000000, Timezone: "UTC", Precision: dtpb.Date_DAY}
+	case "DateTime":
+		return &dtpb.DateTime{ValueUs: 1577836800000000, Timezone: "+02:00", Precision: dtpb.DateTime_SECOND}
 	}
+	return nil
+}
+
+// inputForm builds the resource collection a C01 "evalopt" case names.
+func inputForm(name string, mr1 proto.Message) []fhir.Resource {
+	one := mr1.(fhir.Resource)
+	switch name {
+	case "one":
+		return []fhir.Resource{one}
+	case "none":
+		return []fhir.Resource{}
+	case "nilslice":
+		return nil
+	case "two":
+		return []fhir.Resource{one, lib.LoadModelResource("MR2").(fhir.Resource)}
+	case "same-twice":
+		return []fhir.Resource{one, one}
+	case "nil-element":
+		return []fhir.Resource{nil}
+	case "typed-nil-element":
+		var p *ppb.Patient
+		return []fhir.Resource{p}
+	case "nil-then-one":
+		return []fhir.Resource{nil, one}
+	case "bundle":
+		return []fhir.Resource{lib.LoadModelResource("MR3").(fhir.Resource)}
+	}
+	lib.Fatal("unknown input form %q", name)
+	return nil
+}
+
+// optionSet builds the evaluate options a C01 "evalopt" case names.
+func optionSet(name string, mr1 proto.Message) []fhirpath.EvaluateOption {
+	x := evalopts.EnvVariable("x", system.Collection{system.Integer(1)})
+	switch name {
+	case "none":
+		return []fhirpath.EvaluateOption{x}
+	case "time-year-10000":
+		return []fhirpath.EvaluateOption{x, evalopts.OverrideTime(time.Date(10000, 1, 1, 0, 0, 0, 0, time.UTC))}
+	case "time-year-0":
+		return []fhirpath.EvaluateOption{x, evalopts.OverrideTime(time.Date(0, 1, 1, 0, 0, 0, 0, time.UTC))}
+	case "time-year-minus-1":
+		return []fhirpath.EvaluateOption{x, evalopts.OverrideTime(time.Date(-1, 6, 15, 12, 0, 0, 0, time.UTC))}
+	case "time-9999-end":
+		return []fhirpath.EvaluateOption{x, evalopts.OverrideTime(time.Date(9999, 12, 31, 23, 59, 59, 999999999, time.UTC))}
+	case "time-zone+14":
+		return []fhirpath.EvaluateOption{x, evalopts.OverrideTime(time.Date(2020, 2, 29, 23, 59, 59, 0, time.FixedZone("", 14*3600)))}
+	case "time-zone-seconds":
+		return []fhirpath.EvaluateOption{x, evalopts.OverrideTime(time.Date(1890, 1, 1, 0, 0, 0, 0, time.FixedZone("LMT", 53*60+28)))}
+	case "time-zero-value":
+		return []fhirpath.EvaluateOption{x, evalopts.OverrideTime(time.Time{})}
+	case "var-nil-collection":
+		return []fhirpath.EvaluateOption{evalopts.EnvVariable("x", system.Collection(nil))}
+	case "var-empty-name":
+		return []fhirpath.EvaluateOption{x, evalopts.EnvVariable("", system.Integer(1))}
+	case "var-twice":
+		return []fhirpath.EvaluateOption{x, x}
+	case "var-nil-value":
+		return []fhirpath.EvaluateOption{evalopts.EnvVariable("x", nil)}
+	case "var-typed-nil-element":
+		var s *dtpb.String
+		return []fhirpath.EvaluateOption{evalopts.EnvVariable("x", s)}
+	case "var-nested-collection":
+		return []fhirpath.EvaluateOption{evalopts.EnvVariable("x", system.Collection{system.Collection{system.Integer(1)}, nil, mr1})}
+	}
+	lib.Fatal("unknown option set %q", name)
 	return nil
 }
 
@@ -154,7 +226,26 @@ func main() {
 		}
 		switch c.Kind {
 		case "eval":
-			write(c.ID, c.Kind, c.Text, lib.EvalOutcome(forest, c.Text, lib.AsResources(mr1), copts, env()))
+			// twice, each time freshly compiled: state kept from the first call (a cached failure, say) must not crash the second
+			out := lib.EvalOutcome(forest, c.Text, lib.AsResources(mr1), copts, env())
+			if out2 := lib.EvalOutcome(forest, c.Text, lib.AsResources(mr1), copts, env()); out2["k"] == "panic" || out2["k"] == "timeout" {
+				out = out2
+			}
+			write(c.ID, c.Kind, c.Text, out)
+		case "evalopt":
+			write(c.ID, c.Kind, c.Res+" | "+c.Name+" | "+c.Text, guarded(func() lib.Outcome {
+				e, err := fhirpath.Compile(c.Text)
+				if err != nil {
+					return lib.ErrOutcome("cerr", err)
+				}
+				if _, err := e.Evaluate(inputForm(c.Res, mr1), optionSet(c.Name, mr1)...); err != nil {
+					return lib.ErrOutcome("err", err)
+				}
+				if _, err := e.EvaluateAsString(inputForm(c.Res, mr1), optionSet(c.Name, mr1)...); err != nil {
+					return lib.ErrOutcome("err", err)
+				}
+				return lib.OkOutcome(nil)
+			}))
 		case "compile":
 			write(c.ID, c.Kind, c.Text, guarded(func() lib.Outcome {
 				e, err := fhirpath.Compile(c.Text)
